@@ -7,6 +7,7 @@ import (
 	"time"
 
 	"github.com/dapr/kit/events/queue"
+	clocktesting "k8s.io/utils/clock/testing"
 
 	"verif/harness/common"
 	"verif/simrt"
@@ -51,7 +52,64 @@ var sleeps = []time.Duration{200 * time.Microsecond, 500 * time.Microsecond, tim
 
 const maxDelay = 4 * time.Millisecond
 
+// farFuture: items scheduled further ahead than a timer can be armed for (the largest Duration is ~292 years),
+// on the stepped fake clock the processor accepts through WithClock. Simulated (bubble) time cannot pass the
+// year 2262, so this part of the time axis is walked on the injected clock instead.
+func farFuture(s *simrt.Sim) {
+	s.DisableDelays()
+	start := time.Date(2000, 1, 1, 0, 0, 0, 0, time.UTC)
+	fc := clocktesting.NewFakeClock(start)
+	var execs []string
+	p := queue.NewProcessor[string, *item](func(it *item) {
+		execs = append(execs, fmt.Sprintf("i%d at %s", it.id, fc.Now().Format(time.RFC3339)))
+		if fc.Now().Before(it.t.Add(-500 * time.Microsecond)) {
+			s.Fail("early", fmt.Sprintf("item i%d, scheduled for %s, executed at clock %s", it.id, it.t.Format(time.RFC3339), fc.Now().Format(time.RFC3339)))
+		}
+	}).WithClock(fc)
+	far := &item{id: 0, key: "far", t: []time.Time{time.Date(9999, 12, 31, 23, 59, 59, 0, time.UTC), start.Add(1<<63 - 1).Add(time.Hour), start.Add(1<<63 - 1).Add(1 << 62)}[s.Choose(3, "howfar")]}
+	near := &item{id: 1, key: "near", t: start.Add(time.Duration(1+s.Choose(400, "nearyears")) * 365 * 24 * time.Hour)}
+	rest := func() bool {
+		if !s.WaitUntil("rest", time.Minute, func() bool { return s.PredKitQuiescent() }) {
+			s.Fail("hang", "the processor did not come to rest\n"+s.Dump())
+			return false
+		}
+		return true
+	}
+	p.Enqueue(far)
+	withNear := s.Choose(2, "withnear") == 0
+	if withNear {
+		p.Enqueue(near)
+	}
+	if !rest() {
+		return
+	}
+	// walk the clock in steps no timer can outlast
+	for y := 0; y < 450 && !s.Failed(); {
+		step := []int{1, 40, 100, 146, 200, 292}[s.Choose(6, "stepyears")]
+		y += step
+		fc.Step(time.Duration(step) * 365 * 24 * time.Hour)
+		if !rest() {
+			return
+		}
+	}
+	if withNear && near.t.Before(fc.Now()) && len(execs) == 0 {
+		s.Fail("stranded-item", fmt.Sprintf("item i1, due %s, was not executed by clock %s", near.t.Format(time.RFC3339), fc.Now().Format(time.RFC3339)))
+	}
+	s.Probe("far-future.walked")
+	p.Close()
+	if !rest() {
+		return
+	}
+	if l := s.Live(""); len(l) > 0 {
+		s.Fail("loop-alive-after-close", fmt.Sprintf("processor goroutines alive after Close returned: %v", l))
+	}
+}
+
 func body(s *simrt.Sim, tier string) {
+	if s.Choose(40, "farfuture") == 0 {
+		farFuture(s)
+		return
+	}
 	t0 := time.Now()
 	nclients := 2 + s.Choose(2, "clients")
 	maxOps := 4
